@@ -80,6 +80,13 @@ def run_case(case, rec):
         seen.add(obj._name)
         m.select(nodes=np.asarray(ins["rows"])).insert(obj)
         objs.append((obj, ins))
+    if case.get("history", True):
+        # a previous init_states()/integrate() on the same module, before voltages and parameters are edited: the second
+        # init_states must use the edited tables (no stale derived arrays)
+        try:
+            m.init_states(delta_t=case["delta_t"])
+        except Exception as e:  # noqa: BLE001
+            rec.refused("rows_written", e, where="first init_states")
     m.set("v", np.asarray(case["v"]))
     for key, vals in (("vt", case["vt"]), ("taumax", case["taumax"]), ("vx", case["vx"])):
         for col in list(m.nodes.columns):
